@@ -926,9 +926,12 @@ class TestResult(unittest.TestResult):
 
     def _restoreStdStreams(self):
         """Restore the buffered standard streams and return any contents."""
-        if self.options.buffer:
-            stdout = sys.stdout.getvalue()
-            stderr = sys.stderr.getvalue()
+        if self.options.buffer and self._stdout_buffer is not None:
+            # Read the buffers themselves: a test can report more than one
+            # result (e.g. an error in the test and another one in
+            # tearDown), in which case the streams are already restored.
+            stdout = self._stdout_buffer.getvalue()
+            stderr = self._stderr_buffer.getvalue()
             sys.stdout = self._original_stdout
             sys.stderr = self._original_stderr
             self._stdout_buffer.seek(0)
